@@ -22,6 +22,12 @@ SEEDS = {
     "C25": ("C25", "a nested plain Hierarchical with non-compute leaves on the path before the target compute and not containing it", ["C25"]),
     "C27": ("C27", ">= 3 chained calls where the second call calculates something the first did not and the third re-requests a quantity of the first (e.g. calc(area=False), calc(), calc())", ["C27"]),
     "C31": ("C31", "a Toll with direction 'up' on an output tensor below the backing store, child with skip_initial_output_write (default)", ["C31"]),
+    "C23": ("C23", "a concise projection whose shorthand entry repeats a rank already defined by an earlier entry of the same tensor (e.g. I[M: m+1, m], V[b, b])", ["C23"]),
+    "C24": ("C24", "a rank variable whose projection coefficient is not 1 (e.g. P: 2*p + r)", ["C24"]),
+    "C26": ("C26", "a fanout > 1, then a Fork or a non-final Compute, then more components in the same node list", ["C26"]),
+    "C28": ("C28", "energy() with per_tensor=True on a result with non-zero leak power", ["C28"]),
+    "C29": ("C29", "'default' listed before an Einsum's own top-level entry, a name defined in both, not overridden locally", ["C29"]),
+    "C30": ("C30", "mesh, unicast (Relevant) loop, odd fanout >= 3", ["C30"]),
     "C32": ("C32", "dict input, n_jobs >= 2, >= 2 jobs, at least one job completing before an earlier-submitted one", ["C32"]),
 }
 
